@@ -22,6 +22,8 @@ def run(cx):
     cx.rule("C11.R1", "TS", "tracked task: no entry point returns Ok with a change of the task's state/data/hooks that was not persisted afterwards")
     cx.rule("C11.R1o", "K2", "other tasks: a write to a task reached by navigation is followed by a persist of that same task on every success path (or lifted to the callers)")
     cx.rule("C11.R2", "K4", "into_data: every field of the task / process row is built from the same-named accessor")
+    cx.rule("C11.R4", "K3", "nothing lives in memory only: every cell of the live Task / Process that can change while the process runs (a field behind a lock or an atomic) is read by into_data into the stored row")
+    r4_no_memory_only_cells(cx)
     cx.rule("C11.R3", "K3", "every process cell that can change after start (state, end_time, err, env) is patched into the process row whenever a task is stored")
     r2(cx)
     r3(cx)
@@ -462,3 +464,78 @@ def _transitive_callers(m, q, depth=3):
             else:
                 out.append(c)
     return out
+
+
+
+# live cells that are stored some other way than as a column of the same row
+CELL_ELSEWHERE = {
+    ("Process", "tasks"): "the tasks of a process are stored as task rows (C11.R1 / R1o)",
+}
+
+
+def fields_read_from_self(m, f, depth=0, seen=None):
+    """fields of `self` (parameter 1) that f reads, directly or through methods called on self (two levels)"""
+    pa = Prov(m, "alias")
+    seen = seen if seen is not None else set()
+    if f.q in seen or depth > 2:
+        return set()
+    seen.add(f.q)
+    out = set()
+
+    def note(place_proj):
+        for e in place_proj:
+            if isinstance(e, list) and e[0] == "f":
+                out.add(e[2])
+                return
+
+    for b in f.blocks:
+        for s_ in b["s"]:
+            if s_[0] != "A":
+                continue
+            rv = s_[2]
+            places = []
+            if rv[0] == "ref":
+                places.append(rv[1])
+            elif rv[0] in ("use", "cast"):
+                op = rv[1] if rv[0] == "use" else rv[2]
+                if op[0] != "k":
+                    places.append(op[1])
+            for loc, proj in places:
+                r = pa.root_place(f, loc, [])
+                if (loc == 1 or (r[0] == "param" and r[1] == 1)) and proj:
+                    if loc == 1:
+                        note(proj)
+                    elif r[3] == () or r[3] == ("*",):
+                        note(proj)
+    for c in f.calls():
+        if c.args and c.callee.get("local"):
+            r = pa.root(f, c.args[0])
+            if r[0] == "param" and r[1] == 1 and not [x for x in r[3] if x != "*"]:
+                g = m.fns.get(c.q)
+                if g is not None:
+                    out |= fields_read_from_self(m, g, depth + 1, seen)
+            elif r[0] == "param" and r[1] == 1 and r[3]:
+                fld = [x for x in r[3] if x != "*"]
+                if fld:
+                    out.add(fld[0])
+    return out
+
+
+def r4_no_memory_only_cells(cx, rule="C11.R4"):
+    m = cx.m
+    n = 0
+    for short, adt, fq in (("Task", "acts::scheduler::process::task::Task", r"^acts::scheduler::process::task::Task::into_data$"),
+                           ("Process", "acts::scheduler::process::process::Process", r"^acts::scheduler::process::process::Process::into_data$")):
+        f = m.one(fq)
+        read = fields_read_from_self(m, f)
+        for fld, ty in m.struct_field_types(adt).items():
+            if not re.search(r"RwLock|Mutex|Atomic|Cell<", ty):
+                continue
+            n += 1
+            if (short, fld) in CELL_ELSEWHERE:
+                cx.ob(rule, "cell:%s.%s" % (short, fld), True, "`%s.%s` is stored elsewhere: %s" % (short, fld, CELL_ELSEWHERE[(short, fld)]), f.loc(), exception=True)
+                continue
+            cx.ob(rule, "cell:%s.%s" % (short, fld), fld in read,
+                  "the cell `%s.%s` (%s) changes while the process runs and is read by %s::into_data into the stored row%s" % (
+                      short, fld, ty[:60], short, "" if fld in read else " - it is NOT: what it holds exists in memory only and is gone after a reload"), f.loc())
+    cx.floor(rule, 12)
